@@ -16,10 +16,10 @@
 (*   obs   st                    projection only                                                            *)
 (* st is optional on every event ("nost": 1 when absent).                  *)
 (***************************************************************************)
-EXTENDS NodeFlow, Track, Bytes, Json, IOUtils, TLC
+EXTENDS NodeFlow, Track, Dispatch, Bytes, Json, IOUtils, TLC
 
-VARIABLES l, cap, cfg, ts
-ttvars == <<nodes, now, seqOn, ghost, l, cap, cfg, ts>>
+VARIABLES l, cap, cfg, ts, uq
+ttvars == <<nodes, now, seqOn, ghost, l, cap, cfg, ts, uq>>
 
 Tr == ndJsonDeserialize(IOEnv.TRACE)
 Ev == Tr[l]
@@ -56,7 +56,7 @@ SendAllG(ns, g, out) ==
 
 StOk(t2) == IF Ev.nost = 1 THEN TRUE ELSE Matches(cfg, t2, Ev.st)
 
-TInit == Init /\ l = 1 /\ cap = 64 /\ cfg = [boards |-> <<>>, track |-> <<>>, trains |-> <<>>] /\ ts = State0([boards |-> <<>>, track |-> <<>>, trains |-> <<>>])
+TInit == Init /\ l = 1 /\ cap = 64 /\ cfg = [boards |-> <<>>, track |-> <<>>, trains |-> <<>>] /\ ts = State0([boards |-> <<>>, track |-> <<>>, trains |-> <<>>]) /\ uq = QEmpty
 
 Ghost0 == [sub |-> << >>, wired |-> << >>, last |-> << >>, bad |-> ghost.bad, touched |-> {}, stouched |-> {}]
 
@@ -70,11 +70,15 @@ TStart == /\ IsEv("start")
                           [NewNode EXCEPT !.sseq = IncSeq((CHOOSE x \in RangeS(Ev.seqs) : x.n = a).s)]]
           /\ now' = 0 /\ seqOn' = TRUE /\ cap' = Ev.cap
           /\ ghost' = Ghost0
+          /\ uq' = QEmpty
 
-QueuesOk(q, raw) ==
-    /\ Ev.qm = (IF q = "msg" THEN <<raw>> ELSE <<>>)
-    /\ Ev.qe = (IF q = "err" THEN <<raw>> ELSE <<>>)
-    /\ Ev.qi = (IF q = "int" THEN <<raw>> ELSE <<>>)
+(* the message is appended to its queue; when the script drained the queues right after it (dr = 1) they must
+   hold exactly what the specification says, oldest first, and are empty afterwards *)
+QueueStep(q, raw) ==
+    LET u1 == QPush(uq, q, raw) IN
+    IF Ev.dr = 1 THEN /\ Ev.qm = u1.msg /\ Ev.qe = u1.err /\ Ev.qi = u1.int
+                      /\ uq' = QEmpty
+    ELSE uq' = u1
 
 TUp == /\ IsEv("up")
        /\ Len(Ev.d) >= MinData(Ev.ty, Ev.d)
@@ -92,7 +96,7 @@ TUp == /\ IsEv("up")
              /\ (r.flush /\ r.out # <<>>) => AllOut(nodes')
              /\ ghost' = sa.g
              /\ ts' = r.ts
-             /\ QueuesOk(r.q, MsgBytes(n, Ev.sq, Ev.ty, Ev.d))
+             /\ QueueStep(r.q, MsgBytes(n, Ev.sq, Ev.ty, Ev.d))
              /\ cap' = IF Ev.ty = MSG_PKT_CAPACITY THEN (IF Ev.d[1] <= 64 THEN 64 ELSE Ev.d[1]) ELSE cap
              /\ StOk(r.ts)
        /\ UNCHANGED <<now, seqOn, cfg>>
@@ -107,25 +111,38 @@ THl == /\ IsEv("hl")
              /\ ghost' = sa.g
              /\ ts' = r.ts
              /\ StOk(r.ts)
-       /\ UNCHANGED <<now, seqOn, cap, cfg>>
+       /\ UNCHANGED <<now, seqOn, cap, cfg, uq>>
 
 TTick == /\ IsEv("tick")
          /\ now' = now + Ev.d
          /\ LET d == Decode(Ev.w) IN CanConsume(nodes, d) /\ nodes' = Consumed(nodes, d)
          /\ ghost' = [ghost EXCEPT !.touched = {}, !.stouched = {}]
-         /\ UNCHANGED <<seqOn, cap, cfg, ts>>
+         /\ UNCHANGED <<seqOn, cap, cfg, ts, uq>>
 
 TFlush == /\ IsEv("flush")
           /\ LET d == Decode(Ev.w) IN CanConsume(nodes, d) /\ nodes' = Consumed(nodes, d)
           /\ AllOut(nodes')
           /\ StOk(ts)
-          /\ UNCHANGED <<now, seqOn, ghost, cap, cfg, ts>>
+          /\ UNCHANGED <<now, seqOn, ghost, cap, cfg, ts, uq>>
 
 TObs == /\ IsEv("obs")
         /\ StOk(ts)
-        /\ UNCHANGED <<nodes, now, seqOn, ghost, cap, cfg, ts>>
+        /\ UNCHANGED <<nodes, now, seqOn, ghost, cap, cfg, ts, uq>>
 
-TNext == TStart \/ TUp \/ THl \/ TTick \/ TFlush \/ TObs
+(* drain: everything the three read functions return until NULL *)
+TDrain == /\ IsEv("drain")
+          /\ Ev.qm = uq.msg /\ Ev.qe = uq.err /\ Ev.qi = uq.int
+          /\ uq' = QEmpty
+          /\ UNCHANGED <<nodes, now, seqOn, ghost, cap, cfg, ts>>
+
+(* one call of bidib_read_message / bidib_read_error_message: k = "msg" | "err", m = returned bytes, <<>> for NULL *)
+TRead == /\ IsEv("rd")
+         /\ LET r == QRead(uq, Ev.k) IN
+            /\ Ev.m = (IF r.ok THEN r.res ELSE <<>>)
+            /\ uq' = r.uq
+         /\ UNCHANGED <<nodes, now, seqOn, ghost, cap, cfg, ts>>
+
+TNext == TStart \/ TUp \/ THl \/ TTick \/ TFlush \/ TObs \/ TDrain \/ TRead
 TSpec == TInit /\ [][TNext]_ttvars
 
 NotAccepted == l <= Len(Tr)
